@@ -37,6 +37,9 @@ func getNgapIp(amfIP, ranIP string, amfPort, ranPort int) (amfAddr, ranAddr *sct
 }
 
 func ConnectToAmf(amfIP, stgIP string, amfPort, stgPort int) (*sctp.SCTPConn, error) {
+	if c := verifAdopt(); c != nil {
+		return c, nil
+	}
 	amfAddr, ranAddr, err := getNgapIp(amfIP, stgIP, amfPort, stgPort)
 	if err != nil {
 		return nil, err
